@@ -116,13 +116,15 @@ func vc19Keep(f vc19Filter, tx *vfxTx) bool {
 
 func TestVerif_C19(t *testing.T) {
 	rep := vh.NewReport("C19", "stream",
-		"StreamTransactions / StreamBlocks over ranges inside and across two adjacent generated epochs (skipped slots, vote/non-vote, failed/ok, loaded accounts) x filter combinations (vote, failed in {absent,true,false}; include/exclude/required over a 6-account universe incl. an account that only appears as a loaded address) x address index loaded or not; a case = one stream; non-trivial = at least one archived transaction in the range")
+		"StreamTransactions / StreamBlocks over ranges inside and across two adjacent generated epochs (skipped slots, blocks recording block time 0, vote/non-vote, failed/ok, loaded accounts) and across a second pair of adjacent epochs with identical CAR layout (same byte offsets, same accounts) x filter combinations (vote, failed in {absent,true,false}; include/exclude/required over a 6-account universe incl. an account that only appears as a loaded address) x address index loaded or not; a case = one stream; non-trivial = at least one archived transaction in the range")
 	cases := vh.NewCases("cases_c19", []string{"YF.C19_Stream"}, "case", "check")
 	seed := vh.Seed()
 	e1 := vfxDefaultSpec("c19e1", 1, seed)
 	e1.NumSlots, e1.FirstRel, e1.SkipPercent, e1.Gsfa, e1.Accounts, e1.MaxTx, e1.MultiSig = 26, vfxEpochLen-26, 30, true, 3, 3, true
+	e1.ZeroTimes = true // some archived blocks record block time 0 (unknown): they are blocks, not skipped slots
 	e2 := vfxDefaultSpec("c19e2", 2, seed+1)
 	e2.NumSlots, e2.FirstRel, e2.SkipPercent, e2.Gsfa, e2.Accounts, e2.MaxTx, e2.MultiSig = 24, 0, 30, true, 3, 3, true
+	e2.ZeroTimes = true
 	specs := []vfxSpec{e1, e2}
 	dense := vfxDefaultSpec("c19dense", 4, seed+2) // more than 100 transactions of one account inside one range
 	dense.NumSlots, dense.SkipPercent, dense.Gsfa, dense.Accounts, dense.MaxEntries, dense.MaxTx = 40, 0, true, 1, 3, 4
@@ -130,14 +132,42 @@ func TestVerif_C19(t *testing.T) {
 	noidx := vfxDefaultSpec("c19noidx", 6, seed+3) // transactions without the optional position index
 	noidx.NumSlots, noidx.SkipPercent, noidx.Gsfa, noidx.Accounts, noidx.MaxEntries, noidx.MaxTx, noidx.NoTxIndex = 12, 20, true, 3, 4, 5, true
 	specs = append(specs, noidx)
-	truths, err := vfxBuild(specs)
-	if err != nil {
-		t.Fatalf("setup failed: %v", err)
+	// two ADJACENT epochs with the SAME layout: equal specs and the same layout seed, only the epoch number and
+	// the slots differ (the slot-dependent choices of the generator used here depend on slot mod 4 only, and
+	// corresponding slots of the two epochs differ by vc19TwinSlots, a multiple of 4). The k-th object of both
+	// CAR files has the same size and the same byte offset and the k-th transactions mention the same accounts:
+	// whatever the server keys by "position in the CAR" must also be keyed by the epoch.
+	tw1 := vfxDefaultSpec("c19tw1", 8, seed+4)
+	tw1.NumSlots, tw1.FirstRel, tw1.SkipPercent, tw1.Gsfa, tw1.Accounts, tw1.MaxTx, tw1.MultiSig = vc19TwinSlots, vfxEpochLen-vc19TwinSlots, 25, true, 3, 3, true
+	tw1.ZeroTimes = true
+	tw1.LayoutSeed = seed*2654435761 + 977
+	if tw1.LayoutSeed == 0 {
+		tw1.LayoutSeed = 977
 	}
-	for _, tr := range truths {
-		if tr.BuildErr != "" {
-			t.Fatalf("setup failed: fixture %s: %s", tr.Spec.Name, tr.BuildErr)
+	tw2 := tw1
+	tw2.Name, tw2.Dir, tw2.Epoch, tw2.FirstRel = "c19tw2", filepath.Join(vh.OutDir(), "fx-c19tw2"), 9, 0
+	specs = append(specs, tw1, tw2)
+	built, berr := vfxBuild(specs)
+	// a fixture epoch that cannot be built (or, below, loaded) on the tree under test is left out with a note;
+	// the remaining epochs are still streamed
+	var truths []*vfxTruth
+	byName := map[string]*vfxTruth{}
+	var skippedFx []string
+	for i, tr := range built {
+		switch {
+		case tr == nil:
+			rep.Note("fixture epoch %s was not built (%v): left out", specs[i].Name, berr)
+			skippedFx = append(skippedFx, specs[i].Name)
+		case tr.BuildErr != "":
+			rep.Note("fixture epoch %s was not built (%s): left out", specs[i].Name, tr.BuildErr)
+			skippedFx = append(skippedFx, specs[i].Name)
+		default:
+			truths = append(truths, tr)
+			byName[tr.Spec.Name] = tr
 		}
+	}
+	if len(truths) == 0 {
+		t.Fatalf("setup failed: no fixture epoch could be built: %v", berr)
 	}
 	// account universe -> small numbers for the Coq cases
 	accID := map[string]int{}
@@ -154,13 +184,66 @@ func TestVerif_C19(t *testing.T) {
 	}
 	loadedOnly := vfxAccount(1, 0).String()
 	universe = append(universe, loadedOnly, vfxAccount(1, 1).String(), vfxAccount(5, 5).String() /* never used */)
-	tr1, tr2, trD, trN := truths[0], truths[1], truths[2], truths[3]
-	base2 := tr2.base()
+	trD, trN := byName["c19dense"], byName["c19noidx"]
+	base2 := e2.Epoch * vfxEpochLen
+	baseT := tw2.Epoch * vfxEpochLen
 	type rng struct{ lo, hi uint64 }
 	ranges := []rng{
 		{base2 - 26, base2 - 14}, {base2 - 12, base2 - 1}, {base2 - 6, base2 + 6}, {base2, base2 + 11}, {base2 + 8, base2 + 23},
 		{base2 - 3, base2 - 3}, {base2 + 5, base2 + 4},
 		{base2 - 200, base2 + 11}, // starts more than the default window (100 slots) before the epoch boundary and ends behind it
+	}
+	// ranges over the pair of same-layout epochs: across the boundary (symmetric; ending on the first slot of the
+	// newer epoch; all of both), and inside either epoch
+	firstTwin := len(ranges)
+	ranges = append(ranges,
+		rng{baseT - 10, baseT + 10}, rng{baseT - 7, baseT}, rng{baseT - vc19TwinSlots, baseT + vc19TwinSlots - 1},
+		rng{baseT - 2, baseT + 16}, rng{baseT - 12, baseT - 1}, rng{baseT, baseT + 12})
+	// what the fixtures provide (preconditions of the two directions above, measured, not assumed)
+	{
+		zero, blocks := 0, 0
+		for _, tr := range truths {
+			for bi := range tr.Blocks {
+				blocks++
+				if tr.Blocks[bi].Blocktime == 0 {
+					zero++
+				}
+			}
+		}
+		rep.Flag("archived_blocks", blocks)
+		rep.Flag("archived_blocks_with_block_time_0", zero)
+		if zero == 0 {
+			rep.Note("no generated block records block time 0 under this seed")
+		}
+		if a, b := byName["c19tw1"], byName["c19tw2"]; a != nil && b != nil {
+			isTx := map[string]bool{}
+			offA := map[uint64]string{}
+			for _, tr := range []*vfxTruth{a, b} {
+				for bi := range tr.Blocks {
+					for _, tx := range tr.Blocks[bi].Txs {
+						isTx[tx.Cid] = true
+					}
+				}
+			}
+			for _, o := range a.Objects {
+				if isTx[o.Cid] {
+					offA[o.Offset] = o.Cid
+				}
+			}
+			same, txB := 0, 0
+			for _, o := range b.Objects {
+				if isTx[o.Cid] {
+					txB++
+					if _, ok := offA[o.Offset]; ok {
+						same++
+					}
+				}
+			}
+			rep.Flag("same_layout_epochs_transactions_at_equal_car_offsets", fmt.Sprintf("%d of %d", same, txB))
+			if same == 0 {
+				rep.Note("the two same-layout epochs share no transaction offset under this seed")
+			}
+		}
 	}
 	T, F := true, false
 	flags := []*bool{nil, &T, &F}
@@ -214,20 +297,35 @@ func TestVerif_C19(t *testing.T) {
 		return "(Some " + vh.CoqBool(*p) + ")"
 	}
 	for _, withIndex := range []bool{true, false} {
-		use := []*vfxTruth{tr1, tr2, trD, trN}
-		var loadTruths []*vfxTruth
-		for _, tr := range use {
+		var use []*vfxTruth
+		var eps []*Epoch
+		multi := NewMultiEpoch(&Options{EpochSearchConcurrency: 2})
+		cache := vfxNewCache()
+		loaded := map[string]bool{}
+		for _, tr := range truths {
 			c := *tr
 			if !withIndex {
 				c.GsfaDir = ""
 				c.ConfigYml = filepath.Join(tr.Spec.Dir, "epoch-noindex.yml")
 				_ = os.WriteFile(c.ConfigYml, []byte(vfxConfigYaml(&c, c.CarPath)), 0o644)
 			}
-			loadTruths = append(loadTruths, &c)
+			ep, err := vfxLoad(&c, cache)
+			if err == nil {
+				if err = multi.AddEpoch(c.Spec.Epoch, ep); err != nil {
+					ep.Close()
+				}
+			}
+			if err != nil {
+				rep.Note("index=%v: fixture epoch %s could not be loaded (%v): left out", withIndex, tr.Spec.Name, err)
+				skippedFx = append(skippedFx, fmt.Sprintf("%s(index=%v)", tr.Spec.Name, withIndex))
+				continue
+			}
+			eps = append(eps, ep)
+			use = append(use, tr)
+			loaded[tr.Spec.Name] = true
 		}
-		multi, eps, err := vfxMulti(loadTruths, 2)
-		if err != nil {
-			t.Fatalf("setup failed: %v", err)
+		if len(use) == 0 {
+			t.Fatalf("setup failed: index=%v: no fixture epoch could be loaded", withIndex)
 		}
 		tag := fmt.Sprintf("index=%v", withIndex)
 		archived := func(lo, hi uint64) []*vfxTx {
@@ -319,7 +417,7 @@ func TestVerif_C19(t *testing.T) {
 			if fmt.Sprint(got) != fmt.Sprint(want) {
 				sig := "stream-differs-from-filtered-archive"
 				missing, extra := vc19Diff(want, got)
-				if len(extra) == 0 && len(missing) > 0 && len(want) > 100 {
+				if len(extra) == 0 && len(missing) > 0 && len(want) > 100 && withIndex && !f.Nil && len(f.Include) > 0 {
 					sig = "stream-misses-transactions-beyond-100-per-account"
 				}
 				rep.Fail(sig, fmt.Sprintf("%s StreamTransactions[%d,%d] filter{%s} inc=%v exc=%v req=%v: streamed %d, expected %d (missing %v, unexpected %v) of %d archived",
@@ -349,24 +447,34 @@ func TestVerif_C19(t *testing.T) {
 			}
 		}
 		// full filter product on one cross-epoch range, a random sample of filters on the others
+		// on the ranges over the same-layout pair: every account filter combination with an include list (the
+		// index-accelerated path), vote/failed absent, and the same random sample of the rest
 		for ri, r := range ranges {
 			for fi, f := range filters {
-				if ri == 2 || fi == 0 || rnd.Intn(len(filters)) < 14 || vh.Thorough() {
+				twinPick := ri >= firstTwin && !f.Nil && len(f.Include) > 0 && f.Vote == nil && f.Failed == nil
+				if ri == 2 || fi == 0 || rnd.Intn(len(filters)) < 14 || twinPick || vh.Thorough() {
+					if ri >= firstTwin {
+						rep.Count("StreamTransactions over the same-layout pair " + tag)
+					}
 					runTx(r.lo, r.hi, f, ri == 2 || rnd.Intn(3) == 0)
 				}
 			}
 		}
 		// the dense epoch: more than 100 matching transactions for one included account
-		dLo, dHi := trD.base(), trD.base()+39
-		dAcc := vfxAccount(0, 0).String()
-		runTx(dLo, dHi, vc19Filter{Include: []string{dAcc}}, false)
-		runTx(dLo, dHi, vc19Filter{Nil: true}, false)
+		if trD != nil && loaded["c19dense"] {
+			dLo, dHi := trD.base(), trD.base()+39
+			dAcc := vfxAccount(0, 0).String()
+			runTx(dLo, dHi, vc19Filter{Include: []string{dAcc}}, false)
+			runTx(dLo, dHi, vc19Filter{Nil: true}, false)
+		}
 		// the epoch whose transactions carry no position index: the order is the order of the block
-		nLo, nHi := trN.base(), trN.base()+uint64(trN.Spec.NumSlots)
-		runTx(nLo, nHi, vc19Filter{Nil: true}, false)
-		runTx(nLo, nHi, vc19Filter{Vote: &F}, false)
-		runTx(nLo, nHi, vc19Filter{Include: []string{universe[0]}}, false)
-		runTx(nLo, nHi, vc19Filter{Failed: &F, Include: []string{universe[1], universe[0]}, Exclude: []string{universe[2]}}, false)
+		if trN != nil && loaded["c19noidx"] {
+			nLo, nHi := trN.base(), trN.base()+uint64(trN.Spec.NumSlots)
+			runTx(nLo, nHi, vc19Filter{Nil: true}, false)
+			runTx(nLo, nHi, vc19Filter{Vote: &F}, false)
+			runTx(nLo, nHi, vc19Filter{Include: []string{universe[0]}}, false)
+			runTx(nLo, nHi, vc19Filter{Failed: &F, Include: []string{universe[1], universe[0]}, Exclude: []string{universe[2]}}, false)
+		}
 		// ---- StreamBlocks
 		for _, r := range ranges {
 			for _, inc := range [][]string{nil, {universe[0]}, {loadedOnly}, {universe[5]}, {universe[1], universe[2]}} {
@@ -447,6 +555,9 @@ func TestVerif_C19(t *testing.T) {
 		}
 	}
 	_ = time.Second
+	if len(skippedFx) > 0 {
+		rep.Flag("fixture_epochs_left_out", skippedFx)
+	}
 	if err := cases.Write(); err != nil {
 		t.Fatal(err)
 	}
@@ -455,6 +566,9 @@ func TestVerif_C19(t *testing.T) {
 		t.Fatal(err)
 	}
 }
+
+// candidate slots of each of the two same-layout epochs (a multiple of 4, see the specs)
+const vc19TwinSlots = 24
 
 func vc19Diff(want, got []int) (missing, extra []int) {
 	w := map[int]bool{}
